@@ -35,9 +35,12 @@ export OfLit (ofLit)
 
 instance : OfLit Float := ⟨fun l => Float.ofBits l.bits⟩
 
-/-- Rust's `f64::is_sign_positive`: the sign bit is clear (`+0.0`, positive numbers, `+∞`, NaNs with a clear sign bit).
-At `Float` it is read off the bit pattern; over an ordered field (one zero, no NaN) it is `0 ≤ x`
-(`Cv.C09.instSignBitReal`, and `Cv.C09.LawfulSignBitField` for abstract fields, in the proof files). -/
+/-- Rust's `f64::is_sign_positive`: the sign bit is clear (`+0.0`, positive numbers, `+∞`, NaNs whose sign bit is clear).
+At `Float` it is read off `Float.toBits`, which CANONICALISES NaN: every NaN counts as sign-positive here, whereas Rust
+mirrors a NaN whose sign bit is set (`-erf(-x)`).  The difference is invisible: `erf` of any NaN is NaN on both routes, and
+NaNs travel as the token `nan`.  For every non-NaN double the instance is exactly Rust's predicate.  Over an ordered field
+(one zero, no NaN) it is `0 ≤ x` (`Cv.C09.instSignBitReal`, and `Cv.C09.LawfulSignBitField` for abstract fields, in the
+proof files). -/
 class SignBit (α : Type) where
   isSignPositive : α → Bool
 
